@@ -48,11 +48,12 @@ type StepC struct {
 	IntervalUs int    `json:"ivl"`    // its interval
 	Pre        bool   `json:"pre"`    // outcome of the step's precondition
 	HasPre     bool   `json:"haspre"`
-	Pres       []bool `json:"pres,omitempty"` // several preconditions, in this order (met / unmet); pre = all of them met
-	PreK       []int  `json:"prek,omitempty"` // how each of them is written (preKinds); decides pres when present
-	Sfail      bool   `json:"sfail"`          // node.setup fails (stdout file in a directory that does not exist)
-	Fails      int    `json:"fails"`          // the first Fails attempts fail; -1: every attempt fails
-	Out        bool   `json:"out,omitempty"`  // the step has an `output:` variable; the executor prints a few bytes
+	Pres       []bool `json:"pres,omitempty"`   // several preconditions, in this order (met / unmet); pre = all of them met
+	PreK       []int  `json:"prek,omitempty"`   // how each of them is written (preKinds); decides pres when present
+	Sfail      bool   `json:"sfail"`            // node.setup fails (stdout file in a directory that does not exist)
+	CFails     int    `json:"cfails,omitempty"` // the creation of the command (executor.NewExecutor in node.setupExec) fails in the first CFails attempts; -1: always
+	Fails      int    `json:"fails"`            // the first Fails attempts fail; -1: every attempt fails
+	Out        bool   `json:"out,omitempty"`    // the step has an `output:` variable; the executor prints a few bytes
 	// stop / timeout streams
 	Repeat       bool   `json:"repeat,omitempty"`     // repeatPolicy.repeat
 	RepeatIvlUs  int    `json:"rivl,omitempty"`       // repeatPolicy.interval
@@ -67,6 +68,7 @@ type StepC struct {
 type HandC struct {
 	On    bool `json:"on"`
 	Fail  bool `json:"fail,omitempty"`
+	Sfail bool `json:"sfail,omitempty"` // node.setup of the handler fails (stdout file in a directory that does not exist)
 	DurUs int  `json:"dur,omitempty"`
 }
 
@@ -141,6 +143,7 @@ type world struct {
 	sc        *scheduler.Scheduler
 	stopFired bool
 	stopDone  chan struct{}
+	catt      map[int]int // calls of the executor's Creator per step (= attempts), for steps with CFails
 }
 
 var worlds sync.Map // run id -> *world
@@ -467,7 +470,7 @@ func runCase(c *Case, id int, logDir string) {
 		c.Note = "graph refused: " + err.Error()
 		return
 	}
-	w := &world{t0: time.Now(), att: map[int]int{}, c: c, g: g, rng: vh.NewRng(c.Rs), stop: make(chan struct{}),
+	w := &world{t0: time.Now(), att: map[int]int{}, catt: map[int]int{}, c: c, g: g, rng: vh.NewRng(c.Rs), stop: make(chan struct{}),
 		stopDone: make(chan struct{})}
 	worlds.Store(id, w)
 	defer worlds.Delete(id)
@@ -490,6 +493,9 @@ func runCase(c *Case, id int, logDir string) {
 		}
 		st := &dag.Step{Name: handlerNames[h],
 			ExecutorConfig: dag.ExecutorConfig{Type: "verifscript", Config: map[string]any{"w": id, "i": -1 - h}}}
+		if c.Handlers[h].Sfail {
+			st.Stdout = "/proc/verif-no-such-dir/out"
+		}
 		switch h {
 		case 0:
 			cfg.OnExit = st
@@ -770,6 +776,9 @@ func randomCaseN(r *vh.Rng, n int, w weights, shuffle bool) Case {
 		if r.Chance(1, 40) {
 			s.Sfail = true
 		}
+		if r.Chance(1, 10) { // the creation of the step's command fails: once, twice, always
+			s.CFails = []int{1, 1, 2, -1}[r.Below(4)]
+		}
 		if r.Chance(1, 4) {
 			s.Out = true
 		}
@@ -830,6 +839,11 @@ func handlerCases(r *vh.Rng, perSubset int) []Case {
 		for k := 0; k < perSubset; k++ {
 			c := randomCaseN(r, 1+r.Below(4), w, r.Bool())
 			c.Handlers = handlerSet(mask, r, 0)
+			for h := range c.Handlers { // a handler whose node cannot be set up: marked failed, not run, the others still run
+				if c.Handlers[h].On && r.Chance(1, 5) {
+					c.Handlers[h].Sfail = true
+				}
+			}
 			c.MaxActive = r.Below(3)
 			c.Policy = []string{"imm", "rnd", "quiet"}[r.Below(3)]
 			prep(&c, r, "handlers")
@@ -837,6 +851,45 @@ func handlerCases(r *vh.Rng, perSubset int) []Case {
 		}
 	}
 	return out
+}
+
+// attempts that fail in the CREATION of the command (not inside Run): with a retry policy whose interval spans several
+// polls of the loop, continueOn.failure and dependents (the node must stay running until its last attempt is over);
+// with maxActiveRuns = k and k or more steps failing that way while others are still pending (the slot must be freed)
+func cfailCase(r *vh.Rng) Case {
+	var steps []StepC
+	k := 0
+	switch r.Below(3) {
+	case 0: // a retried creation failure with a dependent that may proceed on failure
+		a := StepC{Deps: []int{}, Pre: true, Cof: true, Retry: true, Rlimit: 1 + r.Below(2), IntervalUs: 3000 + r.Below(4)*1000}
+		a.CFails = []int{1, 1, 2, -1}[r.Below(4)]
+		if r.Chance(1, 3) {
+			a.Fails = 1
+		}
+		steps = []StepC{a, {Deps: []int{0}, Pre: true}}
+		if r.Bool() {
+			steps = append(steps, StepC{Deps: []int{}, Pre: true})
+		}
+		k = r.Below(3)
+	case 1: // k slots, k or more steps that fail at creation for good, others pending
+		k = 1 + r.Below(2)
+		nf := k + r.Below(2)
+		for j := 0; j < nf; j++ {
+			steps = append(steps, StepC{Deps: []int{}, Pre: true, Cof: r.Bool(), CFails: -1})
+		}
+		steps = append(steps, StepC{Deps: []int{}, Pre: true}, StepC{Deps: []int{0}, Pre: true})
+		if r.Bool() {
+			steps = append(steps, StepC{Deps: []int{nf}, Pre: true})
+		}
+	default: // k slots, creation failures that are retried (own retry pending)
+		k = 1 + r.Below(2)
+		for j := 0; j < 2+r.Below(2); j++ {
+			steps = append(steps, StepC{Deps: []int{}, Pre: true, Retry: true, Rlimit: 1 + r.Below(2), IntervalUs: 2000 + r.Below(3)*1000,
+				CFails: 1 + r.Below(2), Cof: r.Bool()})
+		}
+		steps = append(steps, StepC{Deps: []int{0, 1}, Pre: true})
+	}
+	return Case{Stream: "cfail", Steps: steps, MaxActive: k}
 }
 
 // small DAGs whose commands run for a few milliseconds unless somebody ends them
@@ -1166,6 +1219,16 @@ func main() {
 		if idx >= 0 && ww.c.Steps[idx].SlowCreateUs > 0 {
 			time.Sleep(time.Duration(ww.c.Steps[idx].SlowCreateUs) * time.Microsecond)
 		}
+		if idx >= 0 && ww.c.Steps[idx].CFails != 0 { // the command of this attempt cannot be created
+			ww.mu.Lock()
+			ww.catt[idx]++
+			a := ww.catt[idx]
+			ww.mu.Unlock()
+			if cf := ww.c.Steps[idx].CFails; cf < 0 || a <= cf {
+				ww.log(Ev{E: "x", I: idx, A: a})
+				return nil, errors.New("scripted failure of the creation of the command")
+			}
+		}
 		return &scripted{w: ww, idx: idx, ctx: ctx, killed: make(chan struct{})}, nil
 	})
 	out, err := vh.NewOut(os.Args[1])
@@ -1261,6 +1324,13 @@ func main() {
 			}
 			for i := 0; i < nWide; i++ {
 				cases = append(cases, wideCase(rng))
+			}
+			nCf := 200
+			if tier == "thorough" {
+				nCf = 3000
+			}
+			for i := 0; i < nCf; i++ {
+				cases = append(cases, cfailCase(rng))
 			}
 			// the scenario of the (fixed) done == nil stale-worker flip: retries with interval 0, a spinning loop
 			nFlip := 0
